@@ -468,6 +468,8 @@ impl Sub for MmapSyscalls {
             .or_fail("INFRA:strace_spawn")?;
         let code = out.status.code().unwrap_or(-1);
         ensure!(code != 2, "INFRA:child_setup", "child exit 2: {}", String::from_utf8_lossy(&out.stderr));
+        // 1 = strace itself could not start the child (e.g. the harness binary was replaced while the check ran)
+        ensure!(code != 1, "INFRA:strace_failed", "strace exit 1: {}", String::from_utf8_lossy(&out.stderr));
         ensure!(code == 0, "mmap_child_failed", "the fault-free program failed in the child (exit {code}: 3 = raw directory operation, 4 = index operation): {}", String::from_utf8_lossy(&out.stderr));
         let text = std::fs::read_to_string(&trace).or_fail("INFRA:trace_read")?;
         let sys = parse_trace(&text);
